@@ -259,6 +259,24 @@ func (d c15) Execute(c *core.Case) (res *core.Result) {
 				seen[t] = true
 				ts = append(ts, t)
 			}
+			if r.Chance(0.4) {
+				// one annotation naming a shared entry AND a local-only one: both ids must survive the replay,
+				// the first unchanged, the second remapped
+				sharedRefs, localRefs := []int{}, []int{}
+				for t, e := range localLog {
+					if e.kind == "annotation" {
+						continue
+					}
+					if t < len(shared) {
+						sharedRefs = append(sharedRefs, t)
+					} else {
+						localRefs = append(localRefs, t)
+					}
+				}
+				if len(sharedRefs) > 0 && len(localRefs) > 0 {
+					ts = []int{sharedRefs[r.Intn(len(sharedRefs))], localRefs[r.Intn(len(localRefs))]}
+				}
+			}
 			if len(ts) == 0 {
 				continue
 			}
